@@ -38,6 +38,10 @@ type catchmentStruct struct {
 // output, or if a new sequence is added to a catchmentStruct which is already at capacity
 func rearrangeCatchment(nS *catchmentStruct, catchmentSize int) {
 	sort.SliceStable(nS.catchment, func(i, j int) bool {
+		// undefined distances (NaN: no resolved site in common) sort after everything else
+		if math.IsNaN(nS.catchment[i].distance) || math.IsNaN(nS.catchment[j].distance) {
+			return !math.IsNaN(nS.catchment[i].distance) && math.IsNaN(nS.catchment[j].distance)
+		}
 		return nS.catchment[i].distance < nS.catchment[j].distance || (nS.catchment[i].distance == nS.catchment[j].distance && nS.catchment[i].completeness > nS.catchment[j].completeness)
 	})
 	nS.catchment = nS.catchment[0:catchmentSize]
@@ -80,7 +84,7 @@ func findClosestN(query fastaio.EncodedFastaRecord, catchmentSize int, maxdist f
 				rearrangeCatchment(&neighbours, catchmentSize)
 			}
 
-		} else if distance < neighbours.furthestDistance {
+		} else if distance < neighbours.furthestDistance || (math.IsNaN(neighbours.furthestDistance) && !math.IsNaN(distance)) {
 			rs = resultsStruct{tname: target.ID, completeness: target.Score, distance: distance}
 			neighbours.catchment = append(neighbours.catchment, rs)
 			rearrangeCatchment(&neighbours, catchmentSize)
